@@ -47,8 +47,8 @@ func RacePass(env *engine.Env, outFile string) error {
 	p := engine.Lookup("C12")
 	p.Enumerate(env, func(ci any) bool {
 		c := ci.(C12Case)
-		if c.Mode == "racepass" {
-			return true
+		if c.Mode == "racepass" || c.Mode == "S4" {
+			return true // S4 (the command-line function) exists in the woven copy only
 		}
 		scIters := iters
 		if c.Config == c12Large(env) {
